@@ -107,9 +107,16 @@ def _relation(tag: str, r: dict) -> El:
               + _meta_attrs(r.get('meta')))
 
 
+def _space(a: list, d: dict) -> None:
+    """xml:space="preserve" (WN-LMF 1.3): the text is kept exactly as written."""
+    if d.get('space') == 'preserve':
+        a.append(('xml:space', 'preserve'))
+
+
 def _example(x: dict) -> El:
     a: list = []
     _opt(a, x, 'language')
+    _space(a, x)
     return El('Example', a + _meta_attrs(x.get('meta')), text=x.get('text', ''))
 
 
@@ -186,6 +193,7 @@ def _synset(ss: dict) -> El:
         a = []
         _opt(a, d, 'language')
         _opt(a, d, 'sourceSense')
+        _space(a, d)
         el.children.append(El('Definition', a + _meta_attrs(d.get('meta')),
                               text=d.get('text', '')))
     if ss.get('ili_definition'):
@@ -355,7 +363,11 @@ class _Ser:
                 self.out.append(f'{pad}<{el.tag}{a}></{el.tag}>{nl}')
             return
         if el.text is not None and not el.children:
-            self.out.append(f'{pad}<{el.tag}{a}>{self.text(el.text, self.n_el)}</{el.tag}>{nl}')
+            if ('xml:space', 'preserve') in el.attrs:       # verbatim, no decoration
+                body = _esc_text(el.text, self.s['escape'])
+            else:
+                body = self.text(el.text, self.n_el)
+            self.out.append(f'{pad}<{el.tag}{a}>{body}</{el.tag}>{nl}')
             return
         self.out.append(f'{pad}<{el.tag}{a}>{nl}')
         for c in el.children:
